@@ -107,9 +107,9 @@ var (
 	ExprValues = map[string]string{"E1": `V1<&>`, "E2": `V2"'=`, "M1": `M1&v`, "K1": "cls1", "K12": "cls1 cls2"}
 	// ConstSpelled is how a constant attribute value id is written in the source (double-quoted form);
 	// ConstDecoded is the value the attribute denotes.
-	ConstDecoded = map[string]string{"k1": "v1", "k2": "a&b<c", "k3": `q"q`, "k4": "x&lt;y&#39;", "k5": "/e?a=1&copy=2&lt=3"}
-	constDQ      = map[string]string{"k1": "v1", "k2": "a&amp;b&lt;c", "k3": `q&quot;q`, "k4": "x&amp;lt;y&amp;#39;", "k5": "/e?a=1&amp;copy=2&amp;lt=3"}
-	constSQ      = map[string]string{"k1": "v1", "k2": "a&amp;b&lt;c", "k3": `q"q`, "k4": "x&amp;lt;y&amp;#39;", "k5": "/e?a=1&amp;copy=2&amp;lt=3"}
+	ConstDecoded = map[string]string{"k1": "v1", "k2": "a&b<c", "k3": `q"q`, "k4": "x&lt;y&#39;", "k5": "/e?a=1&copy=2&lt=3", "k6": `C:\temp\new\d+`}
+	constDQ      = map[string]string{"k1": "v1", "k2": "a&amp;b&lt;c", "k3": `q&quot;q`, "k4": "x&amp;lt;y&amp;#39;", "k5": "/e?a=1&amp;copy=2&amp;lt=3", "k6": `C:\temp\new\d+`}
+	constSQ      = map[string]string{"k1": "v1", "k2": "a&amp;b&lt;c", "k3": `q"q`, "k4": "x&amp;lt;y&amp;#39;", "k5": "/e?a=1&amp;copy=2&amp;lt=3", "k6": `C:\temp\new\d+`}
 	// WordTexts maps word ids to their text where it is not the id itself: w3 carries the characters that need
 	// escaping when static text is written into a Go string literal of the generated code (quote, backslash,
 	// backtick, non-ASCII, a control-free multi-byte dash) -- no whitespace and none of < { }.
@@ -398,7 +398,11 @@ func (p *printer) node(n Node, depth int) {
 		}
 		p.ws("v", depth)
 	case "hcomment":
-		p.sb.WriteString("<!-- c -->")
+		if p.v == 1 {
+			p.sb.WriteString("<!--c-->") // comment text is rendered verbatim, padding included
+		} else {
+			p.sb.WriteString("<!-- c -->")
+		}
 		p.ws(n.After, depth)
 	case "mcomment":
 		p.sb.WriteString("/* mc */")
